@@ -479,8 +479,11 @@ func importSpace(program bool) kit.Space {
 	}
 	return kit.Space{
 		Name: name, Size: kit.Product(radices...),
-		Eval:     func(i uint64) kit.Outcome { return runCase(at(i)) },
-		Describe: func(i uint64) any { c := at(i); return map[string]any{"files": c.files, "config": c.describe, "want_build_ok": c.wantOK} },
+		Eval: func(i uint64) kit.Outcome { return runCase(at(i)) },
+		Describe: func(i uint64) any {
+			c := at(i)
+			return map[string]any{"files": c.files, "config": c.describe, "want_build_ok": c.wantOK}
+		},
 	}
 }
 
@@ -547,8 +550,11 @@ func globalsSpace() kit.Space {
 		return globalsCase(int(d[2]), int(d[1]), int(d[0]), false)
 	}
 	return kit.Space{Name: "globals.template", Size: kit.Product(radices...),
-		Eval:     func(i uint64) kit.Outcome { return runCase(at(i)) },
-		Describe: func(i uint64) any { c := at(i); return map[string]any{"files": c.files, "config": c.describe, "want_build_ok": c.wantOK} }}
+		Eval: func(i uint64) kit.Outcome { return runCase(at(i)) },
+		Describe: func(i uint64) any {
+			c := at(i)
+			return map[string]any{"files": c.files, "config": c.describe, "want_build_ok": c.wantOK}
+		}}
 }
 
 // ---- space: ambient identifiers ----
@@ -661,8 +667,11 @@ func goSpace() kit.Space {
 		return goCase(int(d[2]), int(d[1]), d[0] == 1)
 	}
 	return kit.Space{Name: "go-statement", Size: kit.Product(radices...),
-		Eval:     func(i uint64) kit.Outcome { return runCase(at(i)) },
-		Describe: func(i uint64) any { c := at(i); return map[string]any{"files": c.files, "config": c.describe, "want_build_ok": c.wantOK} }}
+		Eval: func(i uint64) kit.Outcome { return runCase(at(i)) },
+		Describe: func(i uint64) any {
+			c := at(i)
+			return map[string]any{"files": c.files, "config": c.describe, "want_build_ok": c.wantOK}
+		}}
 }
 
 // ---- space: call paths ----
@@ -785,6 +794,7 @@ func spaces(tier string) []kit.Space {
 	sps := []kit.Space{importSpace(true), importSpace(false), globalsSpace(), ambientSpace(), goSpace()}
 	sps = append(sps, callSpaces(tier)...)
 	sps = append(sps, historySpaces(tier)...)
+	sps = append(sps, perRunSpace(), combinedImporterSpace(), combinedPackageSpace(), importGridSpace())
 	return sps
 }
 
@@ -793,11 +803,14 @@ func main() {
 		ID:       "C19",
 		Level:    "model_checking",
 		Isolated: true,
-		Rule: "imports: 8 subsets of {fmt,strings,os} (fake packages) × 7 foreign paths {none, unsafe, C, main, x/y, ../a, empty} × every import form (plain, alias, dot, blank; plus `for` in templates) × 15 importer configurations (8 Packages subsets, 4 CombinedImporter shapes, an importer that returns an error, nil importer, nil options), for programs and templates; globals: 9 declared sets × 8 referenced sets × 4 placements; 17 ambient identifiers × 3 source kinds × 15 configurations; go statement: 5 forms × 6 places × AllowGoStmt on/off; call paths: 33 ways to reach a supplied function × 7 places (pairs of ways in thorough); histories: every sequence of 2 and 3 builds that reuse the same Globals / Declarations / Packages map objects and the same BuildOptions, the map being edited in place between builds to each of its 12 contents over {A→FA|FA2, B→FB, C→FC}, × 7 referenced-name sets × 4 sharing modes (3-build histories for 2 modes in quick). Every case that builds is run with the native-call hook. Every case is non-trivial: it either must fail to build for a stated reason or runs at least one statement",
+		Rule:     "imports: 8 subsets of {fmt,strings,os} (fake packages) × 7 foreign paths {none, unsafe, C, main, x/y, ../a, empty} × every import form (plain, alias, dot, blank; plus `for` in templates) × 15 importer configurations (8 Packages subsets, 4 CombinedImporter shapes, an importer that returns an error, nil importer, nil options), for programs and templates; globals: 9 declared sets × 8 referenced sets × 4 placements; 17 ambient identifiers × 3 source kinds × 15 configurations; go statement: 5 forms × 6 places × AllowGoStmt on/off; call paths: 33 ways to reach a supplied function × 7 places (pairs of ways in thorough); histories: every sequence of 2 and 3 builds that reuse the same Globals / Declarations / Packages map objects and the same BuildOptions, the map being edited in place between builds to each of its 12 contents over {A→FA|FA2, B→FB, C→FC}, × 7 referenced-name sets × 4 sharing modes (3-build histories for 2 modes in quick); per-run: 18 call forms of native functions taking an Env × 5 places × 6 sequences of 2–3 runs of ONE build with their own Print hook, Context (or none) and Run vars; combined-importer: 3 members × {package, not found, refusal} in 3 nestings, program and template; combined-package: names {absent, nil, declared} in {sandbox, real} × 6 access forms, with the Lookup/LookupFunc agreement; import-grid: 5 import forms × 20 names (exported/unexported func, var, const, type; names shadowing builtins; unicode first letters) × 5 kinds of file. Every case that builds is run with the native-call hook. Every case is non-trivial: it either must fail to build for a stated reason or runs at least one statement",
 		Assumptions: []string{
 			"the universe packages are fakes with marker functions; the check's own package plays the embedder",
 			"a native call is attributed by the function name of its code pointer; calls of reflect method values are attributed by counting the supplied methods actually entered",
 			"Scriggo's own helpers (scriggo.complex add/sub/mul/div/neg; the native stand-ins of close, copy, delete, panic, print, println, recover used by defer/go) are allowed: they give no access to host functionality",
+			"per-run: what a native function sees through its Env (Context value, Print hook, CallPath) is recorded with the run in progress; the pairing must be the identity; an empty CallPath is accepted (some call forms do not set it)",
+			"combined-package: a nil-valued declaration is not a valid native.Declaration; when Build panics on it the case is classed, not failed; by Lookup's contract a nil declaration of the first member does not hide the second member's",
+			"import-grid: exported = first rune is a Unicode upper case letter (Go's rule)",
 			"host methods invoked by the renderer (String, Error, HTML…) are not native calls and are not observed by the hook",
 			"an import must fail with a *BuildError whenever the importer does not return the package; imports of unsafe and C have no special status (checker_statements.go: checkImport resolves every native import through the importer)",
 		},
